@@ -593,6 +593,7 @@ pub fn run_workers(def: &CheckDef, seed: u64, total_runs: u64, workers: u64) -> 
                 }
             }
             let _ = std::fs::remove_file(&curfile);
+            let _ = std::fs::remove_dir_all(tmpdir.join(format!("fs-{}-{}", std::process::id(), k)));
             (k, fins, deaths)
         }));
     }
@@ -969,4 +970,15 @@ pub fn selftest_determinism(ids: &[String], runs: u64) -> i32 {
     } else {
         0
     }
+}
+
+/// a scratch directory on the real file system for the current worker (stable across respawns of the
+/// same logical worker; removed by the supervisor when the check ends)
+pub fn sandbox_dir() -> std::path::PathBuf {
+    let base = std::env::temp_dir().join("dcmsim-tmp");
+    let name = match std::env::var("VERIF_CURFILE") {
+        Ok(p) => std::path::Path::new(&p).file_name().map(|f| f.to_string_lossy().replacen("cur-", "fs-", 1)).unwrap_or_else(|| format!("fs-p{}", std::process::id())),
+        Err(_) => format!("fs-p{}", std::process::id()),
+    };
+    base.join(name)
 }
